@@ -66,3 +66,23 @@ func TreeClone(nodes []*html.Node) *html.Node {
 
 	return fnClone(nearestAncestor)
 }
+
+// Clone returns a copy of src and, if deep is true, of its whole subtree. Unlike dom.Clone
+// it keeps the namespace of the nodes, so SVG and MathML content stays recognisable.
+func Clone(src *html.Node, deep bool) *html.Node {
+	clone := &html.Node{
+		Type:      src.Type,
+		DataAtom:  src.DataAtom,
+		Data:      src.Data,
+		Namespace: src.Namespace,
+		Attr:      append([]html.Attribute{}, src.Attr...),
+	}
+
+	if deep {
+		for child := src.FirstChild; child != nil; child = child.NextSibling {
+			clone.AppendChild(Clone(child, deep))
+		}
+	}
+
+	return clone
+}
